@@ -104,7 +104,7 @@ func init() {
 		}})
 
 	// fixed-width count / length / offset fields: every 2-, 4- and 8-octet window set to
-	// {0, 1, n-1, n+1, 0x7F.., 0x80.., 0xFF..} in both byte orders
+	// {0, 1, n-1, n+1, 0x7F.., 0x80.., 0xFF.., n with one of its four top bits set} in both byte orders
 	addMut(&mutator{name: "field16", count: func(b []byte) int { return max(0, len(b)-1) * nField },
 		at: func(b []byte, i int) []byte { return fieldMut(b, i/nField, 2, i%nField) }})
 	addMut(&mutator{name: "field32", count: func(b []byte) int { return max(0, len(b)-3) * nField },
@@ -169,7 +169,7 @@ var lineRepl = []string{"\x00drop", "\x00dup", "\x00lhs", "\x00rhs", "\x00open",
 
 func splitLines(b []byte) []string { return strings.Split(string(b), "\n") }
 
-const nField = 12
+const nField = 20
 
 func fieldMut(b []byte, off, w, k int) []byte {
 	if off+w > len(b) {
@@ -223,6 +223,15 @@ func fieldMut(b []byte, off, w, k int) []byte {
 		put(le, top)
 	case 11:
 		put(be, ^uint64(0))
+	case 12, 13, 14, 15, 16, 17, 18, 19:
+		// the value with one of its four top bits set: multiplied by an element size of 2, 4, 8 or 16 in arithmetic
+		// of the field's width it wraps round to (a multiple of) the original product, so a "does it fit" test
+		// done after the multiplication still passes
+		bo := be
+		if k >= 16 {
+			bo = le
+		}
+		put(bo, get(bo)|top>>uint(k%4))
 	}
 	if bytes.Equal(o, b) {
 		return nil
